@@ -20,7 +20,9 @@ def seq_jobs(qmax, tiers, suffix, to):
 HS = ["myth_wsqueue_rwbarrier/fence_contract", "myth_wsqueue_lock_lock/lock_contract", "myth_wsqueue_lock_unlock/unlock_contract", "env_thieves/env_thieves"]
 INITCLR = [
   Job("c02.init", TU, "h_init", replace=["myth_wsqueue_lock_init/lock_init_contract"], fuc=["myth_queue_init", "myth_malloc"], timeout=300, mem_gb=12,
-      note="the real capacity INITIAL_QUEUE_SIZE (131072 cells, 1 MB memset by CBMC's built-in model); every cell NULL by ghost witness"),
+      note="the real capacity INITIAL_QUEUE_SIZE (131072 cells, 1 MB memset by CBMC's built-in model, which is cheap only when the whole object is set); every cell NULL by ghost witness. "
+           "Tool limit: a memset of PART of the storage (mutation tried: length without sizeof) crashes cbmc or does not finish -> exit 2 (undecided), not a verdict; "
+           "typed static storage and a havoc-with-witness stub were tried and ran out of memory"),
   Job("c02.clear", TU, "h_clear", replace=["myth_wsqueue_lock_lock/lock_quiescent_contract"] + LOCKS[1:], fuc=["myth_queue_clear"], timeout=300),
   Job("c02.pass", TU, "h_pass", replace=["myth_queue_trypass/trypass_contract"], loops={"myth_queue_pass": [dict(loop_id="0", assigns="g_tp_calls, g_tp_ok, ret", invariants="g_tp_ok == 0", symbol_map="ret,myth_queue_pass::1::ret")]},
       loop_counts={"myth_queue_pass": 1}, fuc=["myth_queue_pass"], timeout=300),
